@@ -58,6 +58,8 @@ Spatials == {[comb |-> None, orig |-> None, dest |-> None, orig2 |-> None]}
 LegalSpatial(s) == /\ s.orig2.kind = "none"
                    /\ (s.comb.kind # "none" => s.orig.kind = "none" /\ s.dest.kind = "none")
 NoLimit == 9999
+\* (distances and distance limits are in statute miles here; flights and filters carry them as kilometres = miles x 1.609344,
+\* non-integral reals: a range is closed - a flight AT a limit is inside)
 Ranges == {<<0, NoLimit>>, <<500, NoLimit>>, <<501, NoLimit>>, <<0, 499>>, <<0, 500>>, <<500, 6000>>, <<2001, 5999>>, <<0, 0>>}
 \* (a bound of 0 is a bound like any other: at most 0 seats selects the freighter, at most 0 km nothing)
 SeatRanges == {<<0, NoLimit>>, <<150, NoLimit>>, <<0, 100>>, <<101, 299>>, <<0, 0>>}
